@@ -19,8 +19,10 @@ Pls.tla, theorem ThTolBase):
        requires all 7 x 7 x 2 at the end of the stratified run                                                                   - Ols, Covered{count}
   not stated, modelled (a rejection is an EXTRA-FINDING, never a verdict): bias = |1 - slope| (LBias - Bias), per-column change of units
   (LXUnits - XUnits), exact fit from the Krylov count on (LExact - Exact), OLS coefficients applied to unseen objects = score-based
-  predictions at nlv = rank (LOlsNew - OlsNew).  As before this round: statistics on unseen objects (LStat),
-  change of units of the whole predictor block (LXScale) and the predictor looped into one output (LReuse) are verdicts.
+  predictions at nlv = rank (LOlsNew - OlsNew), change of units of the whole predictor block (LXScale - XScale: the statement's equivariance
+  clause S5 is about the RESPONSE; a verdict until the follow-up of round 3, where a rejected XScale turned out to be the symptom of a stated
+  defect - S4 / S2 on latent variables without covariance - which is now exercised on primary problems).  As before: statistics on unseen
+  objects (LStat) and the predictor looped into one output (LReuse) are verdicts.
 
 (M)  Pls.tla, least-squares scope (unchanged): the ledger's step guards imply InvR2Range / InvFloor.  PlsLs.tla: the extended ledger
      (tolerances that are functions of the logged offsets / objects / least-squares coefficient size, reported-R2 ledger, history ledger)
@@ -39,7 +41,9 @@ Pls.tla, theorem ThTolBase):
      dimensions), fit A again in ONE process, every one projected in full, output objects carried from fit to fit / already sized and
      holding other data / of another shape, model objects at the address a freed model had (measured per fit: End.addr; AddressSanitizer's
      quarantine is switched off in this mode so that addresses really are reused); K8 responses that are exact linear functions of X with an exact fit BEFORE nlv = rank
-     (orthogonal predictor groups; two-level design with an exactly zero residual -> null latent variables), duplicated / mirrored /
+     (orthogonal predictor groups; two-level design with an exactly zero residual -> null latent variables; the same design in other units ->
+     the residual is rounding residue; a response with an interaction that is not a predictor -> a large residual exactly orthogonal to X:
+     no covariance left although nlv <= rank), duplicated / mirrored /
      dependent responses, duplicate objects.  Per model: RSS per (a, j), reported R2 / RMSE / bias, independent least squares (LAPACK
      dgels on the design centred in extended precision), coefficient form, statistics on unseen objects, paired models of c*y+d and X*s.
      TLC validates every event against TracePlsLs.tla, holding the previous rss / reported R2 per response and the history of the process.
@@ -72,8 +76,8 @@ LEVEL_NOTE = ("Trusts TLC, LAPACK dgels/dgesdd as independent oracles, the harne
               "offsets on a block used uncentred (option -1: the offset is signal, cond grows with it, no input-computable bound holds) and with level scaling (option 5: "
               "refused by the zero-scale admission), K4 tiny units on a SCALED block and per-column units below 2^-8 (the library's absolute zero-scale guard 1e-3 is "
               "C10's business; the small-unit class documents what it does), units above 1e5 (entries would pass 1e7), least-squares coefficient size above 50 on a "
-              "K3 case (tolerance arithmetic). Outside the statement (EXTRA-FINDING only): bias statistic, per-column change of units, exactness from the Krylov count "
-              "on. A second PLS() into a used model object is C03's extra finding.")
+              "K3 case (tolerance arithmetic). Outside the statement (EXTRA-FINDING only): bias statistic, change of units of the predictors (whole block and per column), OLS coefficients on unseen objects, exactness "
+              "from the Krylov count on. A second PLS() into a used model object is C03's extra finding.")
 
 TOL = 10000
 TOLM = 10
@@ -81,7 +85,7 @@ ONE = 1000000000
 SAT = 2000000000
 BNCAP = 50000
 DRCAP = 1000000
-EXTRA_EVENTS = ("Bias", "XUnits", "Exact", "OlsNew")
+EXTRA_EVENTS = ("Bias", "XUnits", "Exact", "OlsNew", "XScale")
 KINDS = ("base", "tall1", "tall2", "square", "block", "offx", "offy", "offxy", "magn", "units", "grid", "hist", "exact", "yrel", "edge", "affoff", "duprow")
 EVENT_KINDS = ("Fit", "Rss", "Ols", "Beta", "Stat", "Affine", "XScale", "Reuse", "End", "Bias", "XUnits", "Exact", "OlsNew")
 CTX_FIELDS = ("n", "p", "ny", "nlv", "xs", "ys", "noise", "rank", "offx", "offy", "kind", "tag", "reuse", "hist", "hrel", "exk", "shape")
@@ -126,7 +130,22 @@ def _r2slack(oy, dr):
 _FIT_OF_CASE = {}
 
 
+NOCOV_TAGS = ("K8:exact-then-rounding-residue", "K8:residual-orthogonal-to-X")
+
+
 def _sig(ev):
+    """label of a rejected event; in the classes where no covariance is left after the first latent variable every stated clause that fails is one symptom
+    of one cause, so the signature says so"""
+    sig, what = _sig0(ev)
+    if ev.get("e") not in EXTRA_EVENTS and str(ev.get("cx", {}).get("tag", "")).startswith(NOCOV_TAGS) and sig.split(":")[1] in ("beta", "affine", "ols", "monotone", "r2"):
+        sig = ":".join(sig.split(":")[:2]) + ":lv-without-covariance"
+        what += (" (for the vector u the NIPALS pass starts from - the residual of the response after the first latent variable, or the response with the largest variance - X'u is at the "
+                 "level of its own rounding error or exactly null although nlv <= rank: LVCalc either normalises that residue into a weight vector, so that the scores are at rounding level "
+                 "and b = u't/t't is of any size, or declares a null latent variable although another response still covaries with X)")
+    return sig, what
+
+
+def _sig0(ev):
     e, cx = ev.get("e"), ev.get("cx", {})
     where = "case %s %s" % (ev.get("case"), cx)
     n, ox, oy = cx.get("n", 0), cx.get("offx", 0), cx.get("offy", 0)
@@ -142,11 +161,16 @@ def _sig(ev):
             return "PLS:r2:monotone", "%s: the reported R2 of response %d falls from %.9f to %.9f when LV %d is added" % (where, ev["j"], ev["r2prev_"] * 1e-9, ev.get("r2", 0) * 1e-9, ev["a"])
         return "PLS:monotone", "%s: rss ledger rejected %s" % (where, {k: v for k, v in ev.items() if k != "cx"})
     if e == "Ols":
+        bnm = min(ev.get("bn", 0), BNCAP) if ox >= 4000 else 0
+        if ev["rssPls"] < ev["rssOls"] - _tolrssfull(n, ox, oy, bnm) and not (ev["full"] == 1 and ev["err"] > _tolols(n, ox, oy, bnm)):
+            return "PLS:ols:below-least-squares", "%s: response %d: RSS(PLS, a=%s)/D = %.9f is BELOW the least-squares optimum RSS(OLS)/D = %.9f by more than the tolerance of this input (%.3g): the model fits with something that is not in the span of its predictors" % (
+                where, ev["j"], cx.get("nlv"), ev["rssPls"] * 1e-9, ev["rssOls"] * 1e-9, _tolrssfull(n, ox, oy, bnm) * 1e-9)
         return "PLS:ols", "%s: response %d: RSS(PLS, a=%s)/D = %.9f, RSS(OLS)/D = %.9f, |fitted PLS - fitted OLS| = %.3g (full rank: %d; tolerance of this input %.3g)" % (
             where, ev["j"], cx.get("nlv"), ev["rssPls"] * 1e-9, ev["rssOls"] * 1e-9, ev["err"] * 1e-12, ev["full"], _tolols(n, ox, oy, min(ev.get("bn", 0), BNCAP)) * 1e-12)
     if e == "Beta":
         null = " (the model holds a null latent variable: PLSBetasCoeff inverts a singular P'W)" if ev["errTrain"] >= SAT and cx.get("tag") == "K8:exact-zero-residual" else ""
         sig = "PLS:beta:null-lv" if null else "PLS:beta"
+
         amt = lambda v: "NaN / not finite" if v >= SAT else "%.3g" % (v * 1e-12)
         return sig, "%s: LV %d: coefficient form differs from score form by %s (training) / %s (unseen) of sd(y)%s" % (where, ev["a"], amt(ev["errTrain"]), amt(ev["errNew"]), null)
     if e == "Stat":
@@ -191,7 +215,7 @@ def _would_fail(e):
                 or ("r2prev_" in e and e.get("dr", 1000) <= DRCAP and e.get("r2", 0) + _r2slack(oy, e.get("dr", 1000)) < e["r2prev_"]))
     if k == "Ols":
         bn = min(e.get("bn", 0), BNCAP)
-        return (e["full"] == 1 and (e["err"] > _tolols(n, ox, oy, bn) or abs(e["rssPls"] - e["rssOls"]) > _tolrssfull(n, ox, oy, bn))) or e["rssPls"] < e["rssOls"] - _tolmono(oy) or (e.get("bn", 0) > BNCAP and ox >= 4000)
+        return (e["full"] == 1 and (e["err"] > _tolols(n, ox, oy, bn) or abs(e["rssPls"] - e["rssOls"]) > _tolrssfull(n, ox, oy, bn))) or e["rssPls"] < e["rssOls"] - _tolrssfull(n, ox, oy, bn if ox >= 4000 else 0) or (e.get("bn", 0) > BNCAP and ox >= 4000)
     if k == "Beta":
         return e["errTrain"] > _tolbeta(oy) or e["errNew"] > _tolbeta(oy)
     if k == "Stat":
@@ -641,7 +665,8 @@ def run(ctx):
                        "mode cls: class by case index % 16: n = p+1; n = p+2; square X (6..10) used uncentred; block boundaries n in {7,8,9,15,16,17,31,32,33,39,40,12,24}, p, nlv in "
                        "{3,4,5,7,8,9}; centred X / Y / both 1e2..1e8 spreads from the origin; whole blocks in units 1e-6..1e-3 / 1e3..1e5; per-column units 2^-8..2^15 under options "
                        "1,2,4,5; grids of 0.1, 1/3, 1e-3; histories fit A, A', B, A in one process with the outputs carried along; exact linear responses on orthogonal predictor groups "
-                       "(1..3 distinct eigenvalues) and on a two-level design (exactly zero residual after one LV); duplicated / mirrored / dependent responses; single predictor, "
+                       "(1..3 distinct eigenvalues), on a two-level design in units of 1 (exactly zero residual after one LV), in other units (rounding residue after one LV) and with an "
+                       "interaction that is not a predictor (large residual exactly orthogonal to X); duplicated / mirrored / dependent responses; single predictor, "
                        "one or two unseen objects, ten unseen against 6..9 training objects, nlv = 1 with several responses; affine maps with |d| 1e2..1e8 spreads; duplicate objects; in this mode every output object is fresh / "
                        "already sized and holding other data / of another shape (drawn per case). A case = one fitted model plus paired models: c*y+d for single centred responses "
                        "(|c| 1e-8..1e8 when centring only), X*s (s 1e-8..1e6 without a scaling factor, a power of two for predictors far from the origin), the same predictors in "
